@@ -20,7 +20,7 @@ from fractions import Fraction as F
 import core
 import gen
 
-PROOF_MODULES = ["UnytProofs.C15", "UnytProofs.C15Tab1", "UnytProofs.C15Tab2", "UnytProofs.C15Tab3", "UnytProofs.C15Tab4"]
+PROOF_MODULES = ["UnytProofs.C15Relations", "UnytProofs.C15", "UnytProofs.C15Tab1", "UnytProofs.C15Tab2", "UnytProofs.C15Tab3", "UnytProofs.C15Tab4"]
 
 GUISE_TOL = F(1, 2 ** 45)
 C2_1E7 = F(299792458) ** 2 / 10 ** 7  # 1/(4 pi eps_0) in the pre-2019 SI: (q_Gauss / q_SI)^2
